@@ -158,7 +158,7 @@ theorem copyRange_bounds {r : Bytes} {len st en : Nat} (h : StoreSpec.copyRange 
 
 /-- `upload_part_copy` comparable: any part number (outside 1..10000: `InvalidArgument` on both sides since 205d9a8; before:
     fs:part-number-not-validated); otherwise (whatever upload is named: one that does not exist under this bucket and key is
-    `NoSuchUpload` on both sides since 6bf591c; before: fs:upload-not-bound-to-key) source names agree (a missing source bucket is
+    `NoSuchUpload` on both sides since 41e1cf2; before: fs:upload-not-bound-to-key) source names agree (a missing source bucket is
     inside since cc244fc: `NoSuchBucket` on both sides), the source is not a directory and its size fits `i64`. Any
     `x-amz-copy-source-range` is inside — whatever the byte string: one that is not `bytes=first-last` inside the source is
     `InvalidArgument` on both sides (18203b6, `copyRange_eq`; before, the backend accepted open-ended ranges and ranges beyond
